@@ -745,6 +745,14 @@ def judge(ctx, what, inp, impl_line, exp, demanded):
     if not impl_line.startswith('ok'):
         ctx.fail('crash', inp, '%s: check_messages raised %s' % (what, impl_line))
         return
+    per_entry = {}
+    for x in impl_line.split(' | ')[1:]:
+        m = re.fullmatch(r'(@\d+) dispatch (s[0-9,]*)', x)
+        if m:
+            per_entry.setdefault(m.group(1), []).append(common.dec_str(m.group(2)))
+    for pos, names in per_entry.items():
+        if names != sorted(set(names)):
+            ctx.fail('dispatch-order', inp, '%s: the format checkers of %s ran in the order %r, not in increasing order of their names' % (what, pos, names))
     got = collections.Counter(strip_xml_text(impl_line.split(' | ')[1:]))
     want = collections.Counter(exp)
     dem = collections.Counter(demanded)
@@ -975,5 +983,6 @@ def check(ctx):
              '(c) catalogs from the entry grammar (hand-made families + seeded random), kinds po/pot, rendered with pogen.render, through the real Checker.check(): '
              'ordered (entry position, tag, extras) of check_messages vs the model on the entries as parsed; '
              'ORACLE: the documented rules restated in Python on the generated structure, multiset comparison with the tool\'s tags; '
-             '(m) constructed MO contexts for the possible_hidden_strings exemption. '
+             '(m) constructed MO contexts for the possible_hidden_strings exemption; (x) constructed PO contexts for the XML branch incl. lone surrogates; '
+             'the dispatch of the format checkers must be in increasing name order. '
              'non-trivial = distinct input that produced at least one tag / a scanner hit')
